@@ -136,6 +136,10 @@ class MPSBackendImpl:
             if self.config.optimize_qubit_ordering
             else optimat.eye_permutation(self.qubit_count)
         )
+        # site k holds atom qubit_permutation[k]: the drives follow the atoms
+        self.omega = self.omega[:, self.qubit_permutation]
+        self.delta = self.delta[:, self.qubit_permutation]
+        self.phi = self.phi[:, self.qubit_permutation]
 
         self.hamiltonian_type = pulser_data.hamiltonian_type
         self.time = time.time()
